@@ -6,6 +6,7 @@ from typing import (Any, Callable, Dict, Iterable, List, Mapping, Optional,
                     Set, Tuple, Union, cast)
 
 from .listener import InternalEventListener, PropertyStatechartListener
+from .. import _verif
 from ..utilities import sorted_groupby
 from ..clock import Clock, SimulatedClock, SynchronizedClock
 from ..code import Evaluator, PythonEvaluator
@@ -86,6 +87,9 @@ class Interpreter:
         # Evaluator
         self._evaluator = evaluator_klass(self, initial_context=initial_context)
         self._evaluator.execute_statechart(statechart)
+
+        if _verif.ON:  # verification hook (off unless SISMIC_VERIF is set), see sismic/_verif.py
+            self._verif_install()
 
     @property
     def time(self) -> float:
@@ -813,3 +817,43 @@ class Interpreter:
 
     def __repr__(self):
         return '{}({!r})'.format(self.__class__.__name__, self._statechart)
+
+    # Verification hook (off unless SISMIC_VERIF is set), see sismic/_verif.py.
+    # The three public entry points are shadowed on the instance by recording wrappers.
+    def _verif_install(self) -> None:
+        self._verif_id = _verif.new_id()
+        self._verif_guards = []  # type: List[Any]
+        _verif.emit({'t': 'init', 'iid': self._verif_id, 'chart': _verif.describe(self._statechart),
+                     'time': self._time, 'ignore_contract': self._ignore_contract})
+        self.execute_once = self._verif_execute_once  # type: ignore
+        self._queue_event = self._verif_queue_event  # type: ignore
+        self._evaluator.evaluate_guard = self._verif_evaluate_guard  # type: ignore
+
+    def _verif_execute_once(self) -> Optional[MacroStep]:
+        record = {'t': 'exec', 'iid': self._verif_id, 'clock': self.clock.time,
+                  'pre': {'conf': self.configuration, 'final': self.final, 'time': self.time}}
+        del self._verif_guards[:]
+        returned = None
+        try:
+            returned = type(self).execute_once(self)
+            return returned
+        except Exception as e:
+            record['exc'] = type(e).__name__
+            raise
+        finally:
+            record['steps'] = _verif.step(returned)
+            record['rtime'] = None if returned is None else returned.time
+            record['guards'] = list(self._verif_guards)
+            record['post'] = {'conf': self.configuration, 'final': self.final, 'time': self.time}
+            _verif.emit(record)
+
+    def _verif_queue_event(self, event: Event) -> None:
+        if not isinstance(event, InternalEvent):
+            _verif.emit({'t': 'queue', 'iid': self._verif_id, 'name': event.name,
+                         'delay': getattr(event, 'delay', 0), 'time': self.time})
+        type(self)._queue_event(self, event)
+
+    def _verif_evaluate_guard(self, transition: Transition, event: Optional[Event] = None):
+        value = type(self._evaluator).evaluate_guard(self._evaluator, transition, event)
+        self._verif_guards.append([id(transition), bool(value)])
+        return value
